@@ -1,5 +1,331 @@
 import SqliteDissect.Proofs.Record
 import SqliteDissect.Proofs.CellArith
 import SqliteDissect.Spec.CellWrite
+import SqliteDissect.Proofs.CellChain
 namespace SqliteDissect.Proofs.CellParse
+open SqliteDissect SqliteDissect.Model
+open SqliteDissect.Proofs.Codec SqliteDissect.Proofs.Record SqliteDissect.Proofs.CellArith
+open SqliteDissect.Proofs.CellChain
+
+/-- what the model must report for a payload-bearing cell whose bytes are `cell`, starting at
+`start`, holding the record `cols` with `b` local bytes and the overflow pages `pgs` -/
+def Good (c : Cell) (kind : CellKind) (index start : Nat) (cell : List Nat) (lc : Option Nat)
+    (rowid : Option Int) (cols : List Spec.Col) (b : Nat) (pgs : List Nat) : Prop :=
+  c.kind = kind ∧ c.index = index ∧ c.start = start ∧ c.leftChild = lc ∧ c.rowid = rowid ∧
+  c.payloadSize = some ((Spec.encodeRecord cols).length : Int) ∧
+  c.bytesOnFirst = some (b : Int) ∧
+  c.hasOverflow = decide (b < (Spec.encodeRecord cols).length) ∧
+  c.overflowPages.map (·.number) = pgs ∧
+  c.end_ = ((start + cell.length : Nat) : Int) ∧
+  c.byteSize = (cell.length : Int) + (((Spec.encodeRecord cols).length - b : Nat) : Int) ∧
+  c.record = some ⟨(Spec.hdrSize (Spec.typeBytes cols).length : Int),
+      Spec.varintLen (Spec.hdrSize (Spec.typeBytes cols).length),
+      cols.map expectedCol, Spec.encodeRecord cols⟩ ∧
+  c.digest = cell ++ (Spec.encodeRecord cols).drop b
+
+theorem hdr_varint_le (n : Nat) (hn : n + 3 < 2 ^ 21) : Spec.varintLen (Spec.hdrSize n) ≤ 3 := by
+  unfold Spec.hdrSize Spec.varintLen
+  simp only [Nat.reducePow] at hn ⊢
+  repeat' split
+  all_goals omega
+
+theorem minLocal_ge (u : Nat) (hu : 512 ≤ u) : 39 ≤ Spec.minLocal u := by
+  unfold Spec.minLocal; omega
+
+theorem digest_slice (pre cell post : List Nat) (hi : Int)
+    (h : hi = ((pre.length + cell.length : Nat) : Int)) :
+    (pySlice (Buf.ofList (pre ++ cell ++ post)) (pre.length : Int) hi).toList = cell := by
+  subst h
+  rw [pySlice_toList _ _ _ (by omega) (by rw [ofList_size]; simp only [List.length_append]; omega),
+    ofList_toList, List.append_assoc, List.drop_left, Nat.add_sub_cancel_left, List.take_left]
+
+/-- overflowing payload -/
+theorem payload_cell_ov (v : VersionIf) (hu : 512 ≤ v.pageSize) (kind : CellKind) (maxLoc : Nat)
+    (hlim : (if kind = .tableLeaf then (v.pageSize : Int) - 35 else payloadConst v.pageSize 64) = (maxLoc : Int))
+    (hm : Spec.minLocal v.pageSize ≤ maxLoc)
+    (cols : List Spec.Col) (hv : ∀ c ∈ cols, Spec.ValidCol c)
+    (hn : (Spec.typeBytes cols).length + 3 < 2 ^ 21)
+    (pgs : List Nat) (hnd : pgs.Nodup) (hpg : ∀ p ∈ pgs, p < 2 ^ 32)
+    (pre hdr post : List Nat) (index : Nat) (lc : Option Nat) (rowid : Option Int)
+    (hov : maxLoc < (Spec.encodeRecord cols).length)
+    (hchain : Spec.ChainLaidOut v pgs ((Spec.encodeRecord cols).drop
+        (Spec.localSize v.pageSize maxLoc (Spec.encodeRecord cols).length))) :
+    ∃ c, parsePayloadCell v kind
+        (Buf.ofList (pre ++ (hdr ++ (Spec.encodeRecord cols).take
+            (Spec.localSize v.pageSize maxLoc (Spec.encodeRecord cols).length) ++ Spec.be32 (pgs.headD 0)) ++ post))
+        index pre.length lc rowid ((Spec.encodeRecord cols).length : Int) hdr.length = .ok c ∧
+      Good c kind index pre.length (hdr ++ (Spec.encodeRecord cols).take
+            (Spec.localSize v.pageSize maxLoc (Spec.encodeRecord cols).length) ++ Spec.be32 (pgs.headD 0))
+        lc rowid cols (Spec.localSize v.pageSize maxLoc (Spec.encodeRecord cols).length) pgs := by
+  have hu4 : 4 < v.pageSize := by omega
+  obtain ⟨hb1, hb2, hb3⟩ := local_bounds v.pageSize hu maxLoc hm _ hov
+  have hml := minLocal_ge v.pageSize hu
+  have hhv := hdr_varint_le _ hn
+  have hrr := record_roundtrip cols hv hn (pre ++ hdr) (Spec.be32 (pgs.headD 0) ++ post)
+    (Spec.localSize v.pageSize maxLoc (Spec.encodeRecord cols).length) (by omega) (by omega)
+  unfold Good
+  generalize hE : Spec.encodeRecord cols = enc at *
+  generalize hB : Spec.localSize v.pageSize maxLoc enc.length = b at *
+  have hrl : (enc.drop b).length = enc.length - b := List.length_drop
+  have htl : (enc.take b).length = b := by rw [List.length_take]; omega
+  -- the chain
+  obtain ⟨p, more, rfl⟩ : ∃ p more, pgs = p :: more := by
+    cases pgs with
+    | nil =>
+      have : enc.drop b = [] := hchain
+      rw [this] at hrl; simp only [List.length_nil] at hrl; omega
+    | cons p more => exact ⟨p, more, rfl⟩
+  obtain ⟨ch, hch, hnum, hlens⟩ := chain_laid v hu4 p more _ hchain hpg hnd
+  have hlen := laid_length v hu4 _ _ hchain
+  have hchl : ch.length = (p :: more).length := by rw [← hnum, List.length_map]
+  rw [hrl] at hch hlen
+  have hdl : (dictOfChain ch).length = Spec.overflowPages v.pageSize (enc.length - b) := by
+    rw [dictOfChain_length ch (by rw [hnum]; exact hnd), hchl, hlen]
+  obtain ⟨_, _, hshape⟩ := chain_shape v hu4 p _ ch hch (by rw [hchl, hlen])
+  obtain ⟨lastPg, hlastPg⟩ : ∃ pg, ch.getLast? = some pg := by
+    cases h : ch.getLast? with
+    | none => rw [List.getLast?_eq_none_iff] at h; subst h; simp at hchl
+    | some pg => exact ⟨pg, rfl⟩
+  have hlast := (hshape lastPg hlastPg).1
+  -- the overflow buffer
+  obtain ⟨arr, hfold, harr⟩ := fold_laid v hu4
+    (fun acc pg => do
+      let c ← v.getData pg.number Generated.OVERFLOW_HEADER_LENGTH (some pg.contentLength)
+      pure (acc ++ c.toArray)) (fun _ _ => rfl) (p :: more) _ ch #[] hchain hnum hlens
+  simp only [List.nil_append] at harr
+  have hbuf : Buf.ofArray arr = Buf.ofList (enc.drop b) := by rw [ofArray_eq_ofList, harr]
+  have hbsz : (Buf.ofArray arr).size = enc.length - b := by rw [hbuf, ofList_size, hrl]
+  have e : (enc.length : Int) - (b : Int) = ((enc.length - b : Nat) : Int) := by omega
+  rw [← e] at hch
+  -- the pointer to the first overflow page
+  have hun : unpackAt (Buf.ofList (pre ++ (hdr ++ enc.take b ++ Spec.be32 p) ++ post))
+      ((pre.length : Int) + (hdr.length : Int) + (b : Int)) 4 = .ok p := by
+    have := unpackAt_be32 (Buf.ofList (pre ++ (hdr ++ enc.take b ++ Spec.be32 p) ++ post))
+      (pre ++ hdr ++ enc.take b) post p (hpg p (List.mem_cons_self ..))
+      (by rw [ofList_toList]; simp only [List.append_assoc])
+    simpa only [List.length_append, htl, Int.natCast_add] using this
+  have hexp : calcExpectedOverflow ((enc.length : Int) - (b : Int)) v.pageSize
+      = some (Spec.overflowPages v.pageSize (enc.length - b),
+          (Spec.lastOverflowFill v.pageSize (enc.length - b) : Int)) := by
+    rw [e]; exact overflow_closed_form _ hu4 _ (by omega)
+  have hpage : pre ++ (hdr ++ enc.take b ++ Spec.be32 p) ++ post
+      = pre ++ hdr ++ enc.take b ++ (Spec.be32 p ++ post) := by simp only [List.append_assoc]
+  simp only [List.headD_cons] at hrr ⊢
+  rw [← hpage, List.length_append, Int.natCast_add, ← hbuf] at hrr
+  unfold parsePayloadCell
+  simp only [hlim, localPayload_eq v.pageSize hu maxLoc hm enc.length, hB, hov, decide_true, if_true]
+  have hg4 : Generated.FIRST_OVERFLOW_PAGE_NUMBER_LENGTH = 4 := rfl
+  have cbm : ¬ ((b : Int) < (Spec.minLocal v.pageSize : Int)) := by omega
+  have hbsz' : ((Buf.ofArray arr).size : Int) = (enc.length : Int) - (b : Int) := by rw [hbsz]; omega
+  simp only [bind, Except.bind, pure, Except.pure] at hfold
+  simp only [hg4, hun, bind, Except.bind, cbm, if_false, pure, Except.pure, hexp, hch, hdl, hlastPg,
+    hlast, ne_eq, not_true_eq_false, hfold, hbsz', hrr]
+  refine ⟨_, rfl, rfl, rfl, rfl, rfl, rfl, rfl, rfl, ?_, hnum, ?_, ?_, rfl, ?_⟩
+  · simp only [hb3, decide_true]
+  · simp only [List.length_append, htl, be32_length]; omega
+  · simp only [List.length_append, htl, be32_length]; omega
+  · show _ ++ _ = _
+    rw [digest_slice pre _ post _ (by simp only [List.length_append, htl, be32_length]; omega),
+      hbuf, ofList_toList]
+
+/-- payload that fits on the page -/
+theorem payload_cell_local (v : VersionIf) (hu : 512 ≤ v.pageSize) (kind : CellKind) (maxLoc : Nat)
+    (hlim : (if kind = .tableLeaf then (v.pageSize : Int) - 35 else payloadConst v.pageSize 64) = (maxLoc : Int))
+    (hm : Spec.minLocal v.pageSize ≤ maxLoc)
+    (cols : List Spec.Col) (hv : ∀ c ∈ cols, Spec.ValidCol c)
+    (hn : (Spec.typeBytes cols).length + 3 < 2 ^ 21)
+    (pre hdr post : List Nat) (index : Nat) (lc : Option Nat) (rowid : Option Int)
+    (hov : ¬ maxLoc < (Spec.encodeRecord cols).length) :
+    ∃ c, parsePayloadCell v kind
+        (Buf.ofList (pre ++ (hdr ++ (Spec.encodeRecord cols).take
+            (Spec.localSize v.pageSize maxLoc (Spec.encodeRecord cols).length) ++ []) ++ post))
+        index pre.length lc rowid ((Spec.encodeRecord cols).length : Int) hdr.length = .ok c ∧
+      Good c kind index pre.length (hdr ++ (Spec.encodeRecord cols).take
+            (Spec.localSize v.pageSize maxLoc (Spec.encodeRecord cols).length) ++ [])
+        lc rowid cols (Spec.localSize v.pageSize maxLoc (Spec.encodeRecord cols).length) [] := by
+  have hB : Spec.localSize v.pageSize maxLoc (Spec.encodeRecord cols).length
+      = (Spec.encodeRecord cols).length := by
+    unfold Spec.localSize; rw [if_pos (by omega)]
+  have hvl : Spec.varintLen (Spec.hdrSize (Spec.typeBytes cols).length) ≤ (Spec.encodeRecord cols).length := by
+    rw [encodeRecord_length]; omega
+  have hrr := record_roundtrip cols hv hn (pre ++ hdr) post (Spec.encodeRecord cols).length hvl (Nat.le_refl _)
+  unfold Good
+  rw [hB]
+  generalize hE : Spec.encodeRecord cols = enc at *
+  have hpage : pre ++ (hdr ++ enc.take enc.length ++ []) ++ post
+      = pre ++ hdr ++ enc.take enc.length ++ post := by simp only [List.append_assoc, List.append_nil]
+  rw [← hpage, List.length_append, Int.natCast_add, List.drop_length, ← empty_eq_ofList] at hrr
+  have hexp : calcExpectedOverflow ((enc.length : Int) - (enc.length : Int)) v.pageSize = some (0, 0) := by
+    rw [Int.sub_self]; exact overflow_none _ _ (Int.le_refl _)
+  unfold parsePayloadCell
+  simp only [hlim, localPayload_eq v.pageSize hu maxLoc hm enc.length, hB, hov, decide_false, if_false]
+  simp only [Bool.false_eq_true, if_false, bind, Except.bind, pure, Except.pure, hexp, dictOfChain,
+    List.foldl_nil, List.length_nil, List.getLast?_nil, ne_eq, not_true_eq_false, hrr]
+  have htl : (enc.take enc.length).length = enc.length := by rw [List.length_take]; omega
+  refine ⟨_, rfl, rfl, rfl, rfl, rfl, rfl, rfl, rfl, ?_, rfl, ?_, ?_, rfl, ?_⟩
+  · simp only [Nat.lt_irrefl, decide_false]
+  · simp only [List.length_append, htl, List.length_nil]; omega
+  · simp only [List.length_append, htl, List.length_nil]; omega
+  · show _ = _
+    rw [digest_slice pre _ post _ (by simp only [List.length_append, htl, List.length_nil]; omega),
+      List.drop_length]
+    simp only [List.append_nil]
+
+theorem laid_nil (v : VersionIf) (pgs : List Nat) (h : Spec.ChainLaidOut v pgs []) : pgs = [] := by
+  cases pgs with
+  | nil => rfl
+  | cons p more =>
+    have := (laid_head v p more [] h).2.1
+    simp only [List.length_nil, Nat.lt_irrefl] at this
+
+/-- common tail of the table-leaf, index-leaf and index-interior cell constructors on a cell
+written by SQLite: `hdr` are the bytes of the cell before the payload -/
+theorem payload_cell (v : VersionIf) (hu : 512 ≤ v.pageSize) (kind : CellKind) (maxLoc : Nat)
+    (hlim : (if kind = .tableLeaf then (v.pageSize : Int) - 35 else payloadConst v.pageSize 64) = (maxLoc : Int))
+    (hm : Spec.minLocal v.pageSize ≤ maxLoc)
+    (cols : List Spec.Col) (hv : ∀ c ∈ cols, Spec.ValidCol c)
+    (hn : (Spec.typeBytes cols).length + 3 < 2 ^ 21)
+    (pgs : List Nat) (hpg : ∀ p ∈ pgs, p < 2 ^ 32)
+    (pre hdr post : List Nat) (index : Nat) (lc : Option Nat) (rowid : Option Int)
+    (hchain : Spec.ChainLaidOut v pgs ((Spec.encodeRecord cols).drop
+        (Spec.localSize v.pageSize maxLoc (Spec.encodeRecord cols).length))) :
+    ∃ c, parsePayloadCell v kind
+        (Buf.ofList (pre ++ (hdr ++ (Spec.encodeRecord cols).take
+            (Spec.localSize v.pageSize maxLoc (Spec.encodeRecord cols).length) ++
+            (if Spec.localSize v.pageSize maxLoc (Spec.encodeRecord cols).length < (Spec.encodeRecord cols).length
+              then Spec.be32 (pgs.headD 0) else [])) ++ post))
+        index pre.length lc rowid ((Spec.encodeRecord cols).length : Int) hdr.length = .ok c ∧
+      Good c kind index pre.length (hdr ++ (Spec.encodeRecord cols).take
+            (Spec.localSize v.pageSize maxLoc (Spec.encodeRecord cols).length) ++
+            (if Spec.localSize v.pageSize maxLoc (Spec.encodeRecord cols).length < (Spec.encodeRecord cols).length
+              then Spec.be32 (pgs.headD 0) else []))
+        lc rowid cols (Spec.localSize v.pageSize maxLoc (Spec.encodeRecord cols).length) pgs := by
+  have hnd := laid_nodup v pgs _ hchain hpg
+  by_cases hov : maxLoc < (Spec.encodeRecord cols).length
+  · obtain ⟨_, _, hb3⟩ := local_bounds v.pageSize hu maxLoc hm _ hov
+    rw [if_pos hb3]
+    exact payload_cell_ov v hu kind maxLoc hlim hm cols hv hn pgs hnd hpg pre hdr post index lc rowid
+      hov hchain
+  · have hB : Spec.localSize v.pageSize maxLoc (Spec.encodeRecord cols).length
+        = (Spec.encodeRecord cols).length := by
+      unfold Spec.localSize; rw [if_pos (by omega)]
+    have hnil : pgs = [] := by
+      rw [hB, List.drop_length] at hchain
+      exact laid_nil v pgs hchain
+    subst hnil
+    rw [if_neg (by rw [hB]; omega)]
+    exact payload_cell_local v hu kind maxLoc hlim hm cols hv hn pre hdr post index lc rowid hov
+
+theorem toI64_small (n : Nat) (h : n < 2 ^ 63) : Spec.toI64 n = (n : Int) := by
+  unfold Spec.toI64; rw [if_pos h]
+
+theorem table_leaf_cell_roundtrip (v : VersionIf) (hu : 512 ≤ v.pageSize)
+    (cols : List Spec.Col) (hv : ∀ c ∈ cols, Spec.ValidCol c)
+    (hn : (Spec.typeBytes cols).length + 3 < 2 ^ 21)
+    (rowid : Int) (hr1 : -(2 ^ 63 : Int) ≤ rowid) (hr2 : rowid < (2 ^ 63 : Int))
+    (hp : (Spec.encodeRecord cols).length < 2 ^ 63)
+    (pgs : List Nat) (hpg : ∀ p ∈ pgs, p < 2 ^ 32)
+    (pre post : List Nat) (index : Nat)
+    (hchain : Spec.ChainLaidOut v pgs ((Spec.encodeRecord cols).drop
+        (Spec.localSize v.pageSize (Spec.maxLeaf v.pageSize) (Spec.encodeRecord cols).length))) :
+    ∃ c, parseCellLocal v .tableLeaf
+          (Buf.ofList (pre ++ Spec.writeTableLeafCell v.pageSize rowid (Spec.encodeRecord cols) (pgs.headD 0) ++ post))
+          index pre.length = .ok c ∧
+      c.rowid = some rowid ∧
+      c.payloadSize = some ((Spec.encodeRecord cols).length : Int) ∧
+      c.bytesOnFirst = some (Spec.localSize v.pageSize (Spec.maxLeaf v.pageSize) (Spec.encodeRecord cols).length : Int) ∧
+      c.overflowPages.map (·.number) = pgs ∧
+      c.start = pre.length ∧
+      c.end_ = ((pre.length + (Spec.writeTableLeafCell v.pageSize rowid (Spec.encodeRecord cols) (pgs.headD 0)).length : Nat) : Int) ∧
+      (∃ r, c.record = some r ∧ r.cols = cols.map expectedCol ∧ r.content = Spec.encodeRecord cols) ∧
+      c.digest = Spec.writeTableLeafCell v.pageSize rowid (Spec.encodeRecord cols) (pgs.headD 0) ++
+        (Spec.encodeRecord cols).drop (Spec.localSize v.pageSize (Spec.maxLeaf v.pageSize) (Spec.encodeRecord cols).length) := by
+  have hlim : (if CellKind.tableLeaf = .tableLeaf then (v.pageSize : Int) - 35 else payloadConst v.pageSize 64)
+      = (Spec.maxLeaf v.pageSize : Int) := by
+    rw [if_pos rfl]; unfold Spec.maxLeaf; omega
+  obtain ⟨c, hc, hgood⟩ := payload_cell v hu .tableLeaf (Spec.maxLeaf v.pageSize) hlim
+    (by unfold Spec.maxLeaf; exact (minLocal_le v.pageSize hu).1) cols hv hn pgs hpg pre
+    (Spec.putVarint (Spec.encodeRecord cols).length ++ Spec.putVarint (Spec.toU64 rowid)) post index none
+    (some rowid) hchain
+  have hcell : Spec.writeTableLeafCell v.pageSize rowid (Spec.encodeRecord cols) (pgs.headD 0)
+      = Spec.putVarint (Spec.encodeRecord cols).length ++ Spec.putVarint (Spec.toU64 rowid) ++
+        (Spec.encodeRecord cols).take (Spec.localSize v.pageSize (Spec.maxLeaf v.pageSize) (Spec.encodeRecord cols).length) ++
+        (if Spec.localSize v.pageSize (Spec.maxLeaf v.pageSize) (Spec.encodeRecord cols).length < (Spec.encodeRecord cols).length
+          then Spec.be32 (pgs.headD 0) else []) := rfl
+  rw [hcell]
+  unfold Good at hgood
+  generalize hE : Spec.encodeRecord cols = enc at *
+  generalize hB : Spec.localSize v.pageSize (Spec.maxLeaf v.pageSize) enc.length = b at *
+  generalize hT : (if b < enc.length then Spec.be32 (pgs.headD 0) else []) = ptr at *
+  have hP : enc.length < 2 ^ 63 := hp
+  have hd1 := decodeVarint_at
+    (Buf.ofList (pre ++ (Spec.putVarint enc.length ++ Spec.putVarint (Spec.toU64 rowid) ++ enc.take b ++ ptr) ++ post))
+    pre (Spec.putVarint (Spec.toU64 rowid) ++ enc.take b ++ ptr ++ post) enc.length
+    (by have : (2 : Nat) ^ 63 < 2 ^ 64 := by decide
+        omega)
+    (by rw [ofList_toList]; simp only [List.append_assoc])
+  have hd2 := decodeVarint_at
+    (Buf.ofList (pre ++ (Spec.putVarint enc.length ++ Spec.putVarint (Spec.toU64 rowid) ++ enc.take b ++ ptr) ++ post))
+    (pre ++ Spec.putVarint enc.length) (enc.take b ++ ptr ++ post) (Spec.toU64 rowid) (toU64_lt _)
+    (by rw [ofList_toList]; simp only [List.append_assoc])
+  rw [toI64_small _ hP] at hd1
+  rw [toI64_toU64 rowid hr1 hr2, List.length_append, spec_put_length] at hd2
+  rw [List.length_append, spec_put_length, spec_put_length] at hc
+  obtain ⟨g1, g2, g3, g4, g5, g6, g7, g8, g9, g10, g11, g12, g13⟩ := hgood
+  refine ⟨c, ?_, g5, g6, g7, g9, g3, g10, ⟨_, g12, rfl, rfl⟩, g13⟩
+  unfold parseCellLocal
+  simp only [hd1, hd2, bind, Except.bind]
+  exact hc
+
+theorem index_leaf_cell_roundtrip (v : VersionIf) (hu : 512 ≤ v.pageSize)
+    (cols : List Spec.Col) (hv : ∀ c ∈ cols, Spec.ValidCol c)
+    (hn : (Spec.typeBytes cols).length + 3 < 2 ^ 21)
+    (hp : (Spec.encodeRecord cols).length < 2 ^ 63)
+    (pgs : List Nat) (hpg : ∀ p ∈ pgs, p < 2 ^ 32)
+    (pre post : List Nat) (index : Nat)
+    (hchain : Spec.ChainLaidOut v pgs ((Spec.encodeRecord cols).drop
+        (Spec.localSize v.pageSize (Spec.maxLocalIndex v.pageSize) (Spec.encodeRecord cols).length))) :
+    ∃ c, parseCellLocal v .indexLeaf
+          (Buf.ofList (pre ++ Spec.writeIndexLeafCell v.pageSize (Spec.encodeRecord cols) (pgs.headD 0) ++ post))
+          index pre.length = .ok c ∧
+      c.rowid = none ∧
+      c.payloadSize = some ((Spec.encodeRecord cols).length : Int) ∧
+      c.bytesOnFirst = some (Spec.localSize v.pageSize (Spec.maxLocalIndex v.pageSize) (Spec.encodeRecord cols).length : Int) ∧
+      c.overflowPages.map (·.number) = pgs ∧
+      c.start = pre.length ∧
+      c.end_ = ((pre.length + (Spec.writeIndexLeafCell v.pageSize (Spec.encodeRecord cols) (pgs.headD 0)).length : Nat) : Int) ∧
+      (∃ r, c.record = some r ∧ r.cols = cols.map expectedCol ∧ r.content = Spec.encodeRecord cols) ∧
+      c.digest = Spec.writeIndexLeafCell v.pageSize (Spec.encodeRecord cols) (pgs.headD 0) ++
+        (Spec.encodeRecord cols).drop (Spec.localSize v.pageSize (Spec.maxLocalIndex v.pageSize) (Spec.encodeRecord cols).length) := by
+  have hlim : (if CellKind.indexLeaf = .tableLeaf then (v.pageSize : Int) - 35 else payloadConst v.pageSize 64)
+      = (Spec.maxLocalIndex v.pageSize : Int) := by
+    rw [if_neg (by decide)]; exact (payload_constants v.pageSize hu).2
+  obtain ⟨c, hc, hgood⟩ := payload_cell v hu .indexLeaf (Spec.maxLocalIndex v.pageSize) hlim
+    (minLocal_le v.pageSize hu).2 cols hv hn pgs hpg pre
+    (Spec.putVarint (Spec.encodeRecord cols).length) post index none none hchain
+  have hcell : Spec.writeIndexLeafCell v.pageSize (Spec.encodeRecord cols) (pgs.headD 0)
+      = Spec.putVarint (Spec.encodeRecord cols).length ++
+        (Spec.encodeRecord cols).take (Spec.localSize v.pageSize (Spec.maxLocalIndex v.pageSize) (Spec.encodeRecord cols).length) ++
+        (if Spec.localSize v.pageSize (Spec.maxLocalIndex v.pageSize) (Spec.encodeRecord cols).length < (Spec.encodeRecord cols).length
+          then Spec.be32 (pgs.headD 0) else []) := rfl
+  rw [hcell]
+  unfold Good at hgood
+  generalize hE : Spec.encodeRecord cols = enc at *
+  generalize hB : Spec.localSize v.pageSize (Spec.maxLocalIndex v.pageSize) enc.length = b at *
+  generalize hT : (if b < enc.length then Spec.be32 (pgs.headD 0) else []) = ptr at *
+  have hP : enc.length < 2 ^ 63 := hp
+  have hd1 := decodeVarint_at
+    (Buf.ofList (pre ++ (Spec.putVarint enc.length ++ enc.take b ++ ptr) ++ post))
+    pre (enc.take b ++ ptr ++ post) enc.length
+    (by have : (2 : Nat) ^ 63 < 2 ^ 64 := by decide
+        omega)
+    (by rw [ofList_toList]; simp only [List.append_assoc])
+  rw [toI64_small _ hP] at hd1
+  rw [spec_put_length] at hc
+  obtain ⟨g1, g2, g3, g4, g5, g6, g7, g8, g9, g10, g11, g12, g13⟩ := hgood
+  refine ⟨c, ?_, g5, g6, g7, g9, g3, g10, ⟨_, g12, rfl, rfl⟩, g13⟩
+  unfold parseCellLocal
+  simp only [hd1, bind, Except.bind]
+  exact hc
+
 end SqliteDissect.Proofs.CellParse
